@@ -1,11 +1,133 @@
 (* C12 - Client calls never hang; the client survives a misbehaving peer.
-   Only statements, each closed by [exact lemma]. *)
-From Coq Require Import List NArith Bool.
+
+   Only statements, each closed by [exact lemma], plus non-vacuity Examples.
+   Model: Model/Tags.v (owner loop, reader outcomes as events, the two selects
+   of send as the SET of outcomes Go may choose, the type assertion of each
+   session method from the regenerated table GenReplyTypes.reply_types).
+
+   What the peer can do is an event: EResp t r with ANY tag (unknown, repeated,
+   NOTAG) and ANY decodable type; undecodable input, truncated frames and a
+   closed connection are EReadFatal (ReadFcall returns a non-timeout error).
+
+   Partial clauses: "within bounded time" (no clock in the model: what is
+   proved is that a ready select case exists, i.e. no step of anybody else is
+   needed; the harness applies generous time-outs) and byte-level decoding
+   (channel.go / encoding.go belong to C03/C04; here a frame either decodes to
+   (tag, type, payload) or is a fatal read error). *)
 From stdpp Require Import nmap fin_maps.
-From P9 Require Import Gen.GenReplyTypes Model.Tags Proofs.TagsProofsAlloc.
+From Coq Require Import List NArith Bool.
+From P9 Require Import Gen.GenReplyTypes Model.Tags
+  Proofs.TagsProofsAlloc Proofs.TagsProofs Proofs.TagsProofsDeliver.
 Import ListNotations.
 Open Scope N_scope.
 
-(* the allocator never reaches its "unexpected error" exit: a call is refused only when the pool is exhausted *)
-Theorem C12_alloc_never_unexpected : forall (m : tagmap) h, allocate m h <> inr EAllocUnexpected.
-Proof. exact allocate_never_unexpected. Qed.
+(* 1. no event list - replies with unknown, repeated or NOTAG tags, of any
+   type, in any order with anything else - makes the owner goroutine panic *)
+Theorem C12_no_panic : forall evs,
+  h_panicked (fst (run evs)) = false /\ ~ In OPanic (trace evs).
+Proof. exact run_no_panic. Qed.
+
+Example C12_stray_replies_are_dropped :
+  trace [EReq 1 120 true;
+         EResp 65535 {| r_type := 111; r_id := 1 |};     (* NOTAG *)
+         EResp 40000 {| r_type := 121; r_id := 2 |};     (* never issued *)
+         EResp 1 {| r_type := 121; r_id := 3 |};
+         EResp 1 {| r_type := 121; r_id := 4 |};         (* repeated *)
+         EReq 2 116 true; EResp 2 {| r_type := 117; r_id := 5 |}]
+  = [OFrame 1 1 120; ODeliver 1 {| r_type := 121; r_id := 3 |};
+     OFrame 2 2 116; ODeliver 2 {| r_type := 117; r_id := 5 |}].
+Proof. vm_compute. reflexivity. Qed.
+
+(* 2. a reply that is neither of the type the method asserts nor Rerror
+   surfaces as ErrUnexpectedMsg (table read off csession.go) *)
+Theorem C12_wrong_type : forall mt r,
+  r_type r <> send_error_type ->
+  (forall rt, expected_reply mt = Some rt -> r_type r <> rt) ->
+  client_result mt (conv_reply r) = CUnexpected.
+Proof. exact wrong_type_is_unexpected. Qed.
+
+Example C12_wrong_type_nonvacuous :
+  client_result 120 (conv_reply {| r_type := 117; r_id := 1 |}) = CUnexpected /\
+  client_result 120 (conv_reply {| r_type := 120; r_id := 1 |}) = CUnexpected /\
+  map (fun row => (snd (fst row), snd row)) reply_types =
+  [(102, 103); (104, 105); (110, 111); (112, 113); (114, 115); (116, 117);
+   (118, 119); (120, 121); (122, 123); (124, 125); (126, 127)].
+Proof. vm_compute. auto. Qed.
+
+(* 3. after a fatal read error or the end of the session context:
+   (a) the loop's exit case is ready and taking it closes t.closed (the owner
+       goroutine is there to take it: it never panics, C12_no_panic);
+   (b) the flags are never reset;
+   (c) once closed, every pending send has a ready case returning ErrClosed,
+       and unless a reply was already in its channel every outcome is an error;
+   (d) every later send returns an error out of its first select, nobody else moving *)
+Theorem C12_exit_ready : forall st,
+  h_panicked st = false -> h_closed st = false -> (h_shut st || h_ctx st) = true ->
+  exit_enabled st = true /\ h_closed (fst (hstep st EExit)) = true /\ snd (hstep st EExit) = [OClosed].
+Proof. exact exit_ready. Qed.
+
+Theorem C12_fatal_and_ctx_arm_the_exit : forall st,
+  h_shut (fst (hstep st EReadFatal)) = true /\ h_ctx (fst (hstep st ECtxDone)) = true.
+Proof. intros st. split; [exact (fatal_sets_shut st) | exact (ctxdone_sets_ctx st)]. Qed.
+
+Theorem C12_flags_monotone : forall st e,
+  (h_shut st = true -> h_shut (fst (hstep st e)) = true) /\
+  (h_ctx st = true -> h_ctx (fst (hstep st e)) = true) /\
+  (h_closed st = true -> h_closed (fst (hstep st e)) = true).
+Proof. exact flags_monotone. Qed.
+
+Theorem C12_after_close_pending : forall own e r,
+  In SErrClosed (send_wait true own e r) /\
+  (forall s, In s (send_wait true own e None) -> sres_is_error s = true).
+Proof. exact send_wait_closed. Qed.
+
+Theorem C12_after_close_later : forall own owner,
+  In (Some SErrClosed) (send_first true own owner) /\
+  (owner = false -> forall o, In o (send_first true own owner) -> exists s, o = Some s /\ sres_is_error s = true).
+Proof. exact send_first_closed. Qed.
+
+Example C12_after_close_nonvacuous :
+  let '(st, tr) := run [EReq 1 120 true; EReq 2 116 true; EReadFatal; EExit] in
+  h_closed st = true /\ h_running st = false /\ tr = [OFrame 1 1 120; OFrame 2 2 116; OClosed] /\
+  send_wait (h_closed st) false (err_slot tr 1) (resp_slot tr 1) = [SErrClosed] /\
+  send_first (h_closed st) false (h_running st) = [Some SErrClosed].
+Proof. vm_compute. auto 6. Qed.
+
+(* 4. a call whose own context ends has a ready case returning that context's
+   error (the only one if nothing else happened); the owner loop does not see
+   the cancellation at all: its state - in particular the tag, which stays
+   outstanding - and every other call's deliveries are unchanged *)
+Theorem C12_own_ctx : forall closed e r,
+  In SErrCtx (send_wait closed true e r) /\ send_wait false true None None = [SErrCtx].
+Proof. exact send_wait_own_ctx. Qed.
+
+Theorem C12_own_ctx_invisible : forall st c, hstep st (ECancel c) = (st, []).
+Proof. exact cancel_is_invisible. Qed.
+
+(* 5. the owner loop never blocks handing something to a call: over ALL event
+   lists each call gets at most one item, and both its channels have capacity 1 *)
+Theorem C12_owner_never_blocks_on_delivery : forall evs,
+  List.NoDup (req_calls evs) ->
+  List.NoDup (dcalls (trace evs)) /\ response_chan_cap = 1 /\ err_chan_cap = 1.
+Proof. intros evs H. split; [exact (delivered_once evs H) | exact src_chan_caps]. Qed.
+
+(* 6. a call is refused a tag only when 65535 tags are outstanding *)
+Theorem C12_refused_only_when_exhausted : forall (m : tagmap) h,
+  allocate m h <> inr EAllocUnexpected /\
+  (allocate m h = inr EDepleted <-> (N.to_nat 65535 <= size m)%nat).
+Proof. intros m h. split; [exact (allocate_never_unexpected m h) | exact (allocate_depleted_iff m h)]. Qed.
+
+Print Assumptions C12_no_panic.
+Print Assumptions C12_stray_replies_are_dropped.
+Print Assumptions C12_wrong_type.
+Print Assumptions C12_wrong_type_nonvacuous.
+Print Assumptions C12_exit_ready.
+Print Assumptions C12_fatal_and_ctx_arm_the_exit.
+Print Assumptions C12_flags_monotone.
+Print Assumptions C12_after_close_pending.
+Print Assumptions C12_after_close_later.
+Print Assumptions C12_after_close_nonvacuous.
+Print Assumptions C12_own_ctx.
+Print Assumptions C12_own_ctx_invisible.
+Print Assumptions C12_owner_never_blocks_on_delivery.
+Print Assumptions C12_refused_only_when_exhausted.
